@@ -138,6 +138,20 @@ def check_referrer(path, ev, comp_map, case, tags, feats=FEATS, full=True,
             again = [q for q in pats if q[0] == "int"] + [
                 q for q in pats if q[0] == "slice"][:3]
             for name, obj, exp_arr in objs:
+                # what the feature object says about itself: as many
+                # events as the referrer has, the origin's event shape
+                try:
+                    desc = (len(obj), tuple(obj.shape))
+                    want = (len(exp_arr), tuple(np.shape(exp_arr)))
+                    if desc != want:
+                        bad(FB + ":BasinProxyFeature", "wrong-shape",
+                            f"{name}: len/shape {desc}, expected {want} "
+                            f"(composed map {comp_map.tolist()})",
+                            feat=feat)
+                except BaseException as e:
+                    bad(FB + ":BasinProxyFeature", "exception",
+                        f"{name}: len/shape: {type(e).__name__}: {e}",
+                        feat=feat, exc=type(e).__name__)
                 for pi, pat in enumerate(list(pats) + again):
                     try:
                         got = _apply(obj, pat)
